@@ -45,6 +45,12 @@ class Source(object):
       return -1
     return cmp(self.to_tuple(), other.to_tuple())
 
+  def __eq__(self, other):
+    return isinstance(other, Source) and self.to_tuple() == other.to_tuple()
+
+  def __ne__(self, other):
+    return not self == other
+
   def __hash__(self):
     return hash((self.method, self.service, self.endpoint, self.client_id))
 
